@@ -20,6 +20,7 @@ import (
 
 	"verifharness/internal/cli"
 	"verifharness/internal/emit"
+	"verifharness/internal/schedx"
 )
 
 func main() { cli.Main("C05", runC05) }
@@ -183,6 +184,9 @@ func caseSx(kind int, c cfg, obs []obsRec, scr []scrapeRec, final string, flags 
 }
 
 func runC05(c *cli.Ctx) error {
+	if err := runTie(c); err != nil {
+		return err
+	}
 	r := emit.NewRng(c.Seed)
 	// ---- (a) deterministic scheduler, seeded random schedules
 	w := emit.NewWriter(c.Out, "C05", "sched")
@@ -631,5 +635,150 @@ func runC05(c *cli.Ctx) error {
 			break
 		}
 	}
+	return w.Flush()
+}
+
+// ---- stream tie: the step machine of Model/NativeConc.v against the REAL instrumented code, step by step.
+// A native-only histogram (no classic buckets, native exemplars disabled, no reset configured) runs Observe and
+// Write under the deterministic scheduler; the case carries the configuration, the programs, the schedule, the
+// canonical label of every executed schedule point and every call's result with its invocation/response times.
+// Run/C05_run.v runs zmachine under the same schedule and demands identical labels, results and times (kind 3).
+type tieCall struct {
+	tid, idx int
+	ret      string
+	inv, res int64
+}
+
+func tieExpo(m *dto.Metric) string {
+	hh := m.Histogram
+	return emit.Tup(emit.Z(int64(hh.GetSchema())), emit.F(hh.GetZeroThreshold()), emit.U(hh.GetZeroCount()), emit.U(hh.GetSampleCount()),
+		emit.F(hh.GetSampleSum()), decode(hh.PositiveSpan, hh.PositiveDelta), decode(hh.NegativeSpan, hh.NegativeDelta))
+}
+
+func runTie(c *cli.Ctx) error {
+	r := emit.NewRng(c.Seed ^ 0x5ca1ab1e)
+	w := emit.NewWriter(c.Out, "C05", "tie")
+	maint := 0
+	for it := 0; it < 1500*c.Scale; it++ {
+		factor := []float64{1.1, 1.5, 2, 4, 1.0002, 16}[r.Intn(6)]
+		var zt float64
+		switch r.Intn(3) {
+		case 0:
+			zt = 0
+		case 1:
+			zt = math.Ldexp(1, r.Intn(8)-6)
+		default:
+			zt = -1
+		}
+		maxB := uint32(r.Intn(5)) // 0: no limit
+		maxZT := 0.0
+		if r.Chance(1, 2) {
+			maxZT = math.Ldexp(1, r.Intn(12)-2)
+			if r.Chance(1, 6) {
+				maxZT = math.MaxFloat64
+			}
+		}
+		schema := prometheus.VerifC04PickSchema(factor)
+		nthreads := 2 + r.Intn(3)
+		progs := make([][]op, nthreads)
+		for t := range progs {
+			n := 1 + r.Intn(4)
+			for i := 0; i < n; i++ {
+				if t == 0 && r.Chance(1, 2) || r.Chance(1, 6) {
+					progs[t] = append(progs[t], op{write: true})
+				} else {
+					progs[t] = append(progs[t], op{v: genValue(r)})
+				}
+			}
+		}
+		h := prometheus.NewHistogram(prometheus.HistogramOpts{Name: "h",
+			NativeHistogramBucketFactor: factor, NativeHistogramZeroThreshold: zt, NativeHistogramMaxBucketNumber: maxB,
+			NativeHistogramMaxZeroThreshold: maxZT, NativeHistogramMinResetDuration: 0, NativeHistogramMaxExemplars: -1})
+		recs := make([][]tieCall, nthreads)
+		bodies := make([]func(), nthreads)
+		for t := range progs {
+			t := t
+			bodies[t] = func() {
+				for i, o := range progs[t] {
+					inv := vsched.Now()
+					ret := emit.C(0)
+					if o.write {
+						var m dto.Metric
+						h.Write(&m)
+						ret = emit.C(1, tieExpo(&m))
+					} else {
+						h.Observe(o.v)
+					}
+					recs[t] = append(recs[t], tieCall{tid: t, idx: i, ret: ret, inv: inv, res: vsched.Now()})
+				}
+			}
+		}
+		rr := r.Fork()
+		style := it % 3
+		last := -1
+		victim := rr.Intn(nthreads)
+		freezeAfter := 1 + rr.Intn(12)
+		victimSteps := 0
+		res := vsched.Run(bodies, func(ids []int, labels []string) int {
+			switch style {
+			case 1:
+				if last >= 0 && !rr.Chance(1, 12) {
+					for k, id := range ids {
+						if id == last {
+							return k
+						}
+					}
+				}
+			case 2:
+				if victimSteps >= freezeAfter && len(ids) > 1 {
+					var others []int
+					for k, id := range ids {
+						if id != victim {
+							others = append(others, k)
+						}
+					}
+					if len(others) > 0 {
+						return others[rr.Intn(len(others))]
+					}
+				}
+			}
+			k := rr.Intn(len(ids))
+			last = ids[k]
+			if ids[k] == victim {
+				victimSteps++
+			}
+			return k
+		}, 200000)
+		var all []string
+		for _, rs := range recs {
+			for _, cr := range rs {
+				all = append(all, emit.Tup(emit.I(cr.tid), emit.I(cr.idx), cr.ret, emit.Z(cr.inv), emit.Z(cr.res)))
+			}
+		}
+		ps := make([]string, len(progs))
+		for i, p := range progs {
+			os := make([]string, len(p))
+			for j, o := range p {
+				if o.write {
+					os[j] = emit.C(1)
+				} else {
+					os[j] = emit.C(0, emit.F(o.v))
+				}
+			}
+			ps[i] = emit.L(os)
+		}
+		sched, tr := schedx.TraceSx(res.Trace, true)
+		tags := []string{fmt.Sprintf("threads:%d", nthreads), fmt.Sprintf("maxbuckets:%d", maxB)}
+		for _, s := range res.Trace {
+			if s.Label == "Map.LoadAndDelete" || s.Label == "Map.Delete" {
+				tags = append(tags, "widen-or-halve-in-trace")
+				maint++
+				break
+			}
+		}
+		cfgSx := emit.Tup(emit.Z(int64(schema)), emit.F(zt), emit.U(uint64(maxB)), emit.F(maxZT))
+		w.Add(emit.Tup(emit.I(3), cfgSx, emit.L(ps), sched, tr, emit.L(all), emit.I(schedx.Flags(res))), len(res.Trace) >= 12, tags...)
+	}
+	w.Extra["runs_with_widen_or_halve"] = maint
 	return w.Flush()
 }
